@@ -454,8 +454,8 @@ def mmap_gate(ctx):
     if not (mm and ra):
         ctx.bad(rd, "read() no longer obtains the array from both read_mmap (memory-mapped) and read_array (copied)", key=NP + "::NumpyArrayWrapper.read::mmap or copy")
         return
-    cm = [(unparse(t), pol) for (_, t, pol) in g.conditions_at(g.nodes_of(mm[0]))]
-    ctx.check(cm == [("unpickler.mmap_mode is not None and self.allow_mmap", True)], mm[0], "memory-map iff a mode was validated and the wrapper allows it", "read_mmap is chosen under %s" % cm)
+    cm = sorted(g.fact_set(g.nodes_of(mm[0])))
+    ctx.check(cm == [("self.allow_mmap", True), ("unpickler.mmap_mode is None", False)], mm[0], "memory-map iff a mode was validated and the wrapper allows it", "read_mmap is chosen under %s" % cm)
     ctx.check([(unparse(t), pol) for (_, t, pol) in g.conditions_at(g.nodes_of(ra[0]))] == [("unpickler.mmap_mode is not None and self.allow_mmap", False)], ra[0], "otherwise read the bytes")
     ctx.check([dotted(a) for a in ra[0].args] == ["unpickler", "ensure_native_byte_order"], ra[0], "read_array gets the unpickler and the flag")
     v = ctx.repo.func(NPU, "_validate_fileobject_and_memmap")
